@@ -410,9 +410,13 @@ impl<H: ArchH> World<H> {
                 obs.drew = g != before || had;
                 format!("gen={}", hex(g as u64))
             }
-            Op::Find { u, addr } => match H::find(&self.unws[u], *addr) {
-                Some((i, rel)) => format!("{}:{}", hex(i as u64), hex(rel as u64)),
-                None => "none".into(),
+            Op::Find { u, addr } => match catch(|| H::find(&self.unws[u], *addr)) {
+                Ok(Some((i, rel))) => format!("{}:{}", hex(i as u64), hex(rel as u64)),
+                Ok(None) => "none".into(),
+                Err(loc) => {
+                    obs.panicked = Some(loc);
+                    "panic".into()
+                }
             },
             Op::Max { u } => hex(self.unws[u].max_known_code_address()),
             Op::NewCache { c } => {
